@@ -321,6 +321,21 @@ def check(run):
             seen.add(sig)
             run.spec_fail.append((sig, "fz " + d.hex()[:20000], {"input kind": kind, "bytes": len(d), "implementation": summary[:400]}))
     run.extra["largest allocation request minus slack, per input byte (worst)"] = round(worst_alloc, 2)
+    # hostile files against the MODEL of the read side of a block (Model.ReadBlock: parameter-set selection, time arithmetic,
+    # bounds-checked index resolution): same records before the first exception, and an exception exactly where the model has one
+    if run.driver_ok:
+        cand = [(k, d) for k, d in inputs if k in ("field-boundary", "tree", "valid", "hostile-string") and 0 < len(d) < 20000]
+        step = max(1, len(cand) // (2500 if quick else 40000))
+        cand = cand[::step]
+        lib = G.run_rd(["rd s " + d.hex() for _, d in cand])
+        mod = G.run_driver(["rdq " + d.hex() for _, d in cand])
+        for (k, d), a, m in zip(cand, lib, mod):
+            if a is None or m is None or not a.startswith("I "):
+                continue
+            run.count("read-model: hostile file read by the library and by Model.ReadBlock (%s)" % (a.rsplit(" ", 1)[-1]))
+            if not E.same_records(m, a) and len(run.model_fail) < 5:
+                run.model_fail.append(("rdq " + d.hex()[:6000], {"correspondence": "Model.ReadBlock vs the library reader on a mutated file", "input kind": k,
+                                       "model": (E.blocks_part(m) or "")[:800], "library": (E.blocks_part(a) or "")[:800]}))
     # time proportional to the input: tables of look-alike entries against controls of the same size and shape
     floods = table_floods(rng, 6000 if quick else 20000)
     fl_lines = []
